@@ -10,7 +10,7 @@ use crate::check::constrain::constraint::expected::Expect::*;
 use crate::check::constrain::constraint::expected::{Expect, Expected};
 use crate::check::constrain::constraint::Constraint;
 use crate::check::constrain::generate::env::Environment;
-use crate::check::constrain::generate::operation::gen_magic;
+use crate::check::constrain::generate::operation::{access, gen_magic};
 use crate::check::constrain::generate::statement::check_raises_caught;
 use crate::check::constrain::generate::{gen_vec, generate, Constrained};
 use crate::check::context::arg::python::SELF;
@@ -115,6 +115,14 @@ pub fn gen_call(
             ctx,
             constr,
         ),
+        Node::Index { item, range } if matches!(range.node, Node::Slice { .. }) => {
+            // the access must exist; a slice of a collection is a collection like the one sliced
+            let element = Expected::new(ast.pos, &Type { name: constr.temp_name() });
+            gen_vec(&[*range.clone(), *item.clone()], &env.is_expr(true), false, ctx, constr)?;
+            constr.add("slice access", &element, &access(GET_ITEM, item, range), env);
+            constr.add("slice", &Expected::from(ast), &Expected::from(item), env);
+            Ok(env.clone())
+        }
         Node::Index { item, range } => gen_magic(GET_ITEM, ast, item, range, env, ctx, constr),
 
         _ => Err(vec![TypeErr::new(ast.pos, "Was expecting call")]),
